@@ -96,14 +96,31 @@ Proof. exact bbr_set_cwnd_no_overflow_guard. Qed.
 Theorem C10_bbr_set_cwnd_envelope : forall cwnd m acked o c', bbr_set_cwnd cwnd m acked o = Some c' ->
   c' <= N.max (cwnd + acked) (4 * m).
 Proof. exact bbr_set_cwnd_envelope. Qed.
-(* every history of the executable model, whatever windows the oracle answers *)
+(* the lower bound of the final clamp in set_cwnd never binds (each ingredient applies the minimum
+   window itself): changing that bound alone cannot change any window *)
+Theorem C10_bbr_lower_clamp_redundant : forall cwnd m acked o c', m < 65536 -> 4 * m <= cwnd ->
+  bbr_set_cwnd cwnd m acked o = Some c' -> c' = bbr_set_cwnd_unclamped cwnd m acked o.
+Proof. exact bbr_lower_clamp_redundant. Qed.
+(* every history of the executable model, whatever the oracle answers (state kind, filled_pipe,
+   inflight bounds, window) *)
 Theorem C10_bbr_floor : forall l m s', bsteps (binit m) l = Some s' -> 4 * bmds s' <= bcwnd s'.
 Proof. exact bbr_floor. Qed.
-Theorem C10_bbr_bif_matches_outstanding : forall l s s', bsteps s l = Some s' ->
-  bbif s' + total removed_of l = bbif s + total sent_of l /\ (bbif s <= u32_max -> bbif s' <= u32_max).
+(* every valid history is accepted without panic and bytes_in_flight is what was sent minus what
+   was acknowledged, lost or discarded *)
+Theorem C10_bbr_bif_matches_outstanding : forall l s, qinv s -> bhist_valid (bbif s) l = true ->
+  exists s', bsteps s l = Some s' /\
+    bbif s' + btotal removed_of l = bbif s + btotal sent_of l /\ (bbif s <= u32_max -> bbif s' <= u32_max).
 Proof. exact bbr_bif_matches_outstanding. Qed.
+(* saturation: one step keeps max(cwnd, prior_cwnd) <= 2^30 + delivered bytes *)
+Theorem C10_bbr_no_saturation_step : forall s o a s' S, bsat s S -> bstep s o a = Some s' -> mtu_step_ok o s' ->
+  bsat s' (S + sent_of o).
+Proof. exact bstep_sat. Qed.
+(* the judgement accepts every replay of the model in which at most 2^30 bytes are sent
+   (generator side: at most 320 operations of at most 65535 bytes) and every on_mtu_update leaves a
+   window of at most 2^30 (computed by the model, not an oracle); no per-step window hypothesis *)
 Theorem C10_bbr_judge_model : forall m t rows, (0 <= m < 65536)%Z ->
-  breplay_ok (binit (zN m)) (decode 0 t) (snd (bnext_answer rows)) ->
+  sent_ops (decode 0 t) <= 1073741824 ->
+  breplay_ok (binit (zN m)) (decode 0 t) (times 0 t) (snd (bnext_answer rows)) ->
   Bbr.judge (m :: t) (breplay (m :: t) rows) = true.
 Proof. exact bbr_judge_replay. Qed.
 
@@ -147,6 +164,8 @@ Print Assumptions C10_bbr_floor_mtu.
 Print Assumptions C10_bbr_floor_init.
 Print Assumptions C10_bbr_no_overflow_guard.
 Print Assumptions C10_bbr_set_cwnd_envelope.
+Print Assumptions C10_bbr_lower_clamp_redundant.
+Print Assumptions C10_bbr_no_saturation_step.
 Print Assumptions C10_bbr_floor.
 Print Assumptions C10_bbr_bif_matches_outstanding.
 Print Assumptions C10_bbr_judge_model.
